@@ -23,6 +23,11 @@ var (
 // This function allocates regions starting at the end of the kernel address
 // space. It should only be used during the early stages of kernel initialization.
 func EarlyReserveRegion(size uintptr) (uintptr, *kernel.Error) {
+	// rounding the size up to the next page boundary would wrap around
+	if size > ^uintptr(0)-(mm.PageSize-1) {
+		return 0, errEarlyReserveNoSpace
+	}
+
 	size = (size + (mm.PageSize - 1)) & ^(mm.PageSize - 1)
 
 	// reserving a region of the requested size will cause an underflow
